@@ -126,6 +126,7 @@ Record op_answer := {
 
 Record graph_case := {
   gc_heap : heap;
+  gc_jobs : list nat;        (* objects that have a job from the start: tasks loaded from a saved definition *)
   gc_ops : list op;
   gc_ans : list op_answer
 }.
@@ -160,7 +161,7 @@ Fixpoint check_ops (cl : classes) (s : session) (ops : list op) (ans : list op_a
   end.
 
 Definition check_graph (cl : classes) (c : graph_case) : bool :=
-  check_ops cl {| s_heap := gc_heap c; s_jobs := []; s_reg := [] |} (gc_ops c) (gc_ans c).
+  check_ops cl {| s_heap := gc_heap c; s_jobs := gc_jobs c; s_reg := [] |} (gc_ops c) (gc_ans c).
 
 (* one entry point for both kinds of C15 case *)
 Inductive ccase := CAssign (c : assign_case) | CGraph (c : graph_case).
